@@ -19,7 +19,7 @@ Definition selects (len : Z) (it : item) (k : Z) : Prop :=
    contains every point and any other range containing them all contains it *)
 Theorem axis_item_box idxs keepdims len x : idxs <> [] -> Forall (fun i => 0 <= i < len) idxs ->
   let lo := zmin_l (tl idxs) (hd 0 idxs) in let hi := zmax_l (tl idxs) (hd 0 idxs) in
-  (selects len (axis_item idxs keepdims) x <-> lo <= x <= hi) /\ In lo idxs /\ In hi idxs.
+  (selects len (axis_item len idxs keepdims) x <-> lo <= x <= hi) /\ In lo idxs /\ In hi idxs.
 Proof.
   destruct idxs as [|i0 r]; [congruence|]. intros _ Hall. cbn [tl hd].
   set (lo := zmin_l r i0). set (hi := zmax_l r i0).
@@ -32,7 +32,7 @@ Proof.
   assert (Hle : lo <= hi) by (unfold lo, hi; lia).
   split; [|split].
   - unfold selects, axis_item. fold lo. fold hi.
-    replace (Z.max lo 0) with lo by lia. replace (Z.max (hi + 1) lo) with (hi + 1) by lia.
+    replace (Z.max lo 0) with lo by lia. replace (Z.max (Z.min (hi + 1) len) lo) with (hi + 1) by lia.
     destruct ((hi + 1 - lo =? 1) && negb keepdims) eqn:E.
     + apply andb_true_iff in E. destruct E as [E _]. cbn [np_axis_sel]. rewrite norm_int_nonneg by lia. lia.
     + cbn [np_axis_sel]. unfold sel1, slice_bounds. cbn [adj_pos]. unfold clamp.
@@ -43,7 +43,7 @@ Qed.
 
 (* keepdims changes only whether a length-1 axis is kept, never which elements are selected *)
 Theorem axis_item_keepdims idxs len x : idxs <> [] -> Forall (fun i => 0 <= i < len) idxs ->
-  (selects len (axis_item idxs true) x <-> selects len (axis_item idxs false) x).
+  (selects len (axis_item len idxs true) x <-> selects len (axis_item len idxs false) x).
 Proof.
   intros Hne Hall. destruct (axis_item_box idxs true len x Hne Hall) as [H1 _].
   destruct (axis_item_box idxs false len x Hne Hall) as [H2 _]. cbv zeta in *. rewrite H1, H2. reflexivity.
@@ -51,14 +51,14 @@ Qed.
 
 (* points off the array never exclude an on-array point: every index that lies on the array is selected,
    whatever the other points are (below 0 or beyond the end) *)
-Theorem axis_item_on_array idxs keepdims len k : In k idxs -> 0 <= k < len -> selects len (axis_item idxs keepdims) k.
+Theorem axis_item_on_array idxs keepdims len k : In k idxs -> 0 <= k < len -> selects len (axis_item len idxs keepdims) k.
 Proof.
   intros Hin Hk. destruct idxs as [|i0 r]; [destruct Hin|]. unfold selects, axis_item.
   destruct (zmin_le r i0) as [Hm1 Hm2]. destruct (zmax_ge r i0) as [HM1 HM2].
   set (mn := zmin_l r i0) in *. set (mx := zmax_l r i0) in *.
   assert (Hk' : mn <= k <= mx).
   { destruct Hin as [<-|Hin]; [lia|]. eapply Forall_forall in Hm2; [|exact Hin]. eapply Forall_forall in HM2; [|exact Hin]. lia. }
-  set (lo := Z.max mn 0). set (hi := Z.max (mx + 1) lo).
+  set (lo := Z.max mn 0). set (hi := Z.max (Z.min (mx + 1) len) lo).
   assert (lo <= k < hi) by (unfold lo, hi; lia).
   destruct ((hi - lo =? 1) && negb keepdims) eqn:E.
   - apply andb_true_iff in E. destruct E as [E _]. assert (lo = k) by lia. subst lo. cbn [np_axis_sel].
@@ -69,11 +69,11 @@ Proof.
 Qed.
 
 (* untouched axes are left whole; a result that would be a single element (every axis an int) is refused *)
-Theorem crop_item_spec per_axis keepdims its : crop_item per_axis keepdims = Ok its ->
-  its = map (fun idxs => axis_item idxs keepdims) per_axis /\
+Theorem crop_item_spec shape per_axis keepdims its : crop_item shape per_axis keepdims = Ok its ->
+  its = map (fun '(len, idxs) => axis_item len idxs keepdims) (combine shape per_axis) /\
   (its = [] \/ exists it, In it its /\ is_int it = false).
 Proof.
-  unfold crop_item. set (l := map (fun idxs => axis_item idxs keepdims) per_axis).
+  unfold crop_item. set (l := map (fun '(len, idxs) => axis_item len idxs keepdims) (combine shape per_axis)).
   destruct (forallb is_int l && negb match l with [] => true | _ => false end) eqn:E; [discriminate|].
   intros H; inversion H; subst. split; [reflexivity|].
   apply andb_false_iff in E. destruct E as [E|E].
@@ -83,7 +83,29 @@ Proof.
   - left. destruct l; [reflexivity|discriminate].
 Qed.
 
-Theorem axis_item_untouched keepdims : axis_item [] keepdims = full_slice.
+(* whatever the points (on or off the array, as long as one of them is on it): the emitted region lies on the array,
+   and without keepdims an axis is kept as a slice only if the region is longer than one element *)
+Theorem axis_item_clipped idxs len k : In k idxs -> 0 <= k < len ->
+  match axis_item len idxs false with
+  | IInt i => 0 <= i < len
+  | ISlice (Some lo) (Some hi) None => 0 <= lo /\ hi <= len /\ hi - lo >= 2
+  | _ => False
+  end.
+Proof.
+  intros Hin Hk. destruct idxs as [|i0 r]; [destruct Hin|]. unfold axis_item.
+  destruct (zmin_le r i0) as [Hm1 Hm2]. destruct (zmax_ge r i0) as [HM1 HM2].
+  set (mn := zmin_l r i0) in *. set (mx := zmax_l r i0) in *.
+  assert (Hk' : mn <= k <= mx).
+  { destruct Hin as [<-|Hin]; [lia|]. eapply Forall_forall in Hm2; [|exact Hin]. eapply Forall_forall in HM2; [|exact Hin]. lia. }
+  set (lo := Z.max mn 0). set (hi := Z.max (Z.min (mx + 1) len) lo).
+  assert (lo <= k < hi) by (unfold lo, hi; lia).
+  assert (hi <= len) by (unfold hi, lo; lia).
+  destruct ((hi - lo =? 1) && negb false) eqn:E.
+  - unfold lo in *. lia.
+  - rewrite andb_true_r in E. unfold lo in *. lia.
+Qed.
+
+Theorem axis_item_untouched len keepdims : axis_item len [] keepdims = full_slice.
 Proof. reflexivity. Qed.
 
 (* nearest-pixel rounding: floor(x + 1/2), so a position exactly on a pixel edge k - 1/2 belongs to pixel k *)
